@@ -62,6 +62,8 @@ fn tdec_core(name: &str, b: &[u8]) -> Option<Value> {
         "unit" => (), "phantom" => core::marker::PhantomData<u8>,
         "tup1" => (u8,), "tup3" => (i16, bool, Option<u8>),
         "tup16" => (u8, u8, u8, u8, u8, u8, u8, u8, u8, u8, u8, u8, u8, u8, u8, u8),
+        "tup5" => (u8, i16, u8, i16, u8), "tup7" => (u8, i16, u8, i16, u8, i16, u8), "tup12" => (u8, i16, u8, i16, u8, i16, u8, i16, u8, i16, u8, i16),
+        "arr2tup" => [(u8, bool); 2],
         "arr0u8" => [u8; 0], "arr3i32" => [i32; 3], "arr16u8" => [u8; 16], "arr32u8" => [u8; 32],
         "duration" => core::time::Duration,
         "tag" => Tag, "tagged7u8" => Tagged<7, u8>, "optresult" => Option<Result<u8, bool>>,
@@ -80,6 +82,7 @@ fn tdec_alloc(name: &str, b: &[u8]) -> Option<Value> {
         "btreemapu8string" => BTreeMap<u8, String>, "btreemapstringvecu8" => BTreeMap<String, Vec<u8>>,
         "tagged256string" => Tagged<256, String>, "tagged1vecu8" => Tagged<1, Vec<u8>>,
         "vectup" => Vec<(u8, Option<String>)>, "maptuple" => BTreeMap<u8, (i8, f64)>,
+        "cowsliceu16" => std::borrow::Cow<'static, [u16]>, "vecarr" => Vec<[u8; 3]>, "optbox" => Option<Box<i32>>, "boxvec" => Box<Vec<String>>,
     )
 }
 #[cfg(not(feature = "alloc"))]
